@@ -33,6 +33,7 @@ MUTANTS = [
     ("C16", "HyperDual: a zero mixed part is not stored", "@patch", "/verif/tools/mutants16/m3_zero_part_skipped.diff", None),
     ("C16", "Dual3: a nested part that fails to deserialize becomes zero", "@patch", "/verif/tools/mutants16/m4_de_error_replaced_by_zero.diff", None),
     ("C16", "HyperHyperDual: the phantom marker is stored", "@patch", "/verif/tools/mutants16/m5_marker_stored.diff", None),
+    ("C16", "Dual: a thread-local flag left set by a failed deserialization changes the next one (history-dependent)", "@patch", "/verif/tools/mutants16/m6_stale_thread_local_flag.diff", None),
     ("C16", "seeded C16-a: zero-normalising serialize_with helper", "@patch", "/verif/seeded/C16-a/patch.diff", None),
     ("C16", "seeded C16h-1: tuple form for binary formats with two parts exchanged", "@patch", "/verif/seeded/C16h-1/patch.diff", None),
     ("C16", "seeded C16h-2: keys accepted only as borrowed strings", "@patch", "/verif/seeded/C16h-2/patch.diff", None),
